@@ -19,8 +19,8 @@ STEP = 10
 # (sp, dp, su, ms, bs, sj, ss)
 # the second configuration has minScore below a single off-diagonal pair's score, so one-pair segments from neighbouring peaks
 # exist and collide (with ms = sp only perfect pairs form one-pair segments - the first space explored missed that, see DESIGN 5/F10)
-CONFIGS = [(100, 1, -25, 100, 120, 1, 0), (100, 1, -25, 60, 120, 1, 0), (100, 1, -25, 150, 60, 1, 0), (100, 1, 0, 100, 120, 1, 0),
-           (100, 1, -25, 100, 120, 1, 1), (100, 1, -25, 100, 120, 0, 0), (100, 5, -25, 60, 30, 1, 0)]
+CONFIGS = [(100, 1, -25, 100, 120, 1, 0), (100, 1, -25, 60, 120, 1, 0), (100, 1, -25, 60, 120, 0.1, 1), (100, 1, -25, 150, 60, 1, 0),
+           (100, 1, 0, 100, 120, 1, 0), (100, 1, -25, 100, 120, 1, 1), (100, 1, -25, 100, 120, 0, 0), (100, 5, -25, 60, 30, 1, 0)]
 
 
 @core.guarded(lambda cfg, maxd, rpos, qpos, shift, peaks, rev, *a: dict(config=list(cfg), maxDistance=maxd, reference=rpos, query=qpos, shift=shift, peaks=peaks, reverse=rev))
@@ -55,11 +55,14 @@ def check_case(cfg, maxd, rpos, qpos, shift, peaks, rev, acc, aligner=None, rec=
 
 
 class LayerA(core.Layer):
-    def __init__(self, name, nr, nq, configs, maxds, kmax=3, optional=False):
+    def __init__(self, name, nr, nq, configs, maxds, kmax=3, optional=False, coincident=False):
         self.name = name
         self.optional = optional
         self.refs = lattice.ref_sets(nr, STEP)
         self.qrys = lattice.qry_sets(nq, STEP)
+        if coincident:
+            # every query set with one of its labels duplicated (two labels at exactly the same coordinate)
+            self.qrys = [sorted(q + [x]) for q in self.qrys for x in q]
         self.peaks = lattice.peak_lists(nr, STEP, kmax)
         self.configs = configs
         self.maxds = maxds
@@ -123,6 +126,7 @@ class LadderA(core.Layer):
 def layers(tier, seed):
     from mc import e2e
     if tier == 'quick':
-        return [LayerA('A:NR5,NQ4', 5, 4, CONFIGS[:3], (4, 6)), LadderA('A:indel-ladders', False, CONFIGS[:2])] + e2e.c01_layers(tier, seed)
-    return [LayerA('A:NR5,NQ4', 5, 4, CONFIGS, (4, 6)), LadderA('A:indel-ladders', True, CONFIGS), LayerA('A:NR6,NQ5', 6, 5, CONFIGS, (4, 6))] + e2e.c01_layers(tier, seed) + \
+        return [LayerA('A:NR5,NQ4', 5, 4, CONFIGS[:3], (4, 6)), LayerA('A:coincident,NR4,NQ3', 4, 3, CONFIGS[:2], (6,), coincident=True),
+                LadderA('A:indel-ladders', False, CONFIGS[:3])] + e2e.c01_layers(tier, seed)
+    return [LayerA('A:NR5,NQ4', 5, 4, CONFIGS, (4, 6)), LayerA('A:coincident,NR5,NQ4', 5, 4, CONFIGS[:3], (4, 6), coincident=True), LadderA('A:indel-ladders', True, CONFIGS), LayerA('A:NR6,NQ5', 6, 5, CONFIGS, (4, 6))] + e2e.c01_layers(tier, seed) + \
            [LayerA('A:NR7,NQ5', 7, 5, CONFIGS[:3], (4, 6), optional=True)]
